@@ -57,6 +57,7 @@ Fixpoint heal (k : costs) (fuel : nat) (s : mst) (spent : Z) : option Z :=
            end
   end.
 Definition FUELH : nat := 40.
-(* idle configuration: discovery <= 10 s (+ its poll), one request exchange <= retry-count x (timeout + pause) = 60 s (+ polls),
-   the next ping of a connection that is still pinging <= ping frequency 60 s + one exchange 6 s *)
-Definition idle_costs : costs := {| k_poll := 1; k_discovery := 11; k_request := 61; k_ping := 67 |}.
+(* idle configuration: discovery <= 10 s (+ its poll); one request exchange <= C06's bound for 10 attempts, 63.1 s (HealP.request_cost_covers_c06_bound);
+   the next ping of a connection that is still pinging <= ping frequency 60 s + wait for the lock behind one exchange ... a ping is a 1-attempt
+   call: 60 + 6.4 s, rounded up with the poll *)
+Definition idle_costs : costs := {| k_poll := 1; k_discovery := 11; k_request := 64; k_ping := 71 |}.
